@@ -334,8 +334,9 @@ Print Assumptions C01_default_batch_complete_sim.
 
 From PC Require Import Proofs.HyraxBatchFacts.
 Theorem C01_hyrax_batch_complete :
-  forall (FO : FieldOps) (FL : FieldLaws FO) keylen nv items cs qs ev ot ch pfs ot' ch',
+  forall (FO : FieldOps) (FL : FieldLaws FO) keylen nv,
     (1 <= keylen)%nat -> keylen = (2 ^ (nv / 2))%nat ->
+    forall items cs qs ev ot ch pfs ot' ch',
     maps_agree (list gel) HState (hb_R keylen nv) (label_map items) (label_map cs) ->
     (forall pl pt labels, In (pl, (pt, labels)) (groups qs) ->
        hb_okpt keylen nv pt /\ evals_true HState (hb_value keylen) (label_map items) ev pt labels) ->
